@@ -1204,3 +1204,135 @@ def temporary_node_uses(path):
                 s.visitchildren(n)
         V().visit(node.body)
     return out, seen[0]
+
+
+TRANSFER_DEST = {'Cudd_bddTransfer': 1, 'Cudd_bddTransferRename': 1}    # index of the receiving manager
+
+
+def wrap_manager_uses(path):
+    """`wrap(M, r)` must name the manager the node r belongs to.  Decided where it can be read
+    off the source: r was assigned from a C call that mentions exactly one manager expression
+    `X.manager` (or the receiving manager of a transfer primitive) with X a parameter other than
+    the owner the wrap names.  -> (offenders [(cls, function, line, text)], wraps inspected)"""
+    tree, text = cy_parse(path)
+    src = text.split('\n')
+    out = []
+    seen = [0]
+    for cls, name, node in cy_functions(tree):
+        owner = {}      # variable -> name X such that the node belongs to X's manager
+
+        class V(TreeVisitor):
+            def visit_Node(s, n):
+                s.visitchildren(n)
+
+            def visit_SingleAssignmentNode(s, n):
+                r = n.rhs
+                while isinstance(r, ExprNodes.TypecastNode):
+                    r = r.operand
+                if isinstance(n.lhs, ExprNodes.NameNode) and isinstance(r, ExprNodes.SimpleCallNode):
+                    mgrs = []
+                    for a in r.args:
+                        t = _etext(a)
+                        if t.endswith('.manager'):
+                            mgrs.append(t[:-len('.manager')])
+                    f = _fname(r)
+                    if f in TRANSFER_DEST and len(mgrs) > TRANSFER_DEST[f]:
+                        owner[n.lhs.name] = mgrs[TRANSFER_DEST[f]]
+                    elif len(set(mgrs)) == 1:
+                        owner[n.lhs.name] = mgrs[0]
+                    else:
+                        owner.pop(n.lhs.name, None)
+                s.visitchildren(n)
+
+            def visit_SimpleCallNode(s, n):
+                if _fname(n) == 'wrap' and len(n.args) == 2:
+                    seen[0] += 1
+                    m_, r_ = _etext(n.args[0]), _etext(n.args[1])
+                    x = owner.get(r_)
+                    if x is not None and x != 'self':
+                        ok = {x, x + '.bdd', x + '.zdd'}
+                        # `u.bdd` names u's manager; a plain parameter names itself
+                        named = m_[:-4] if m_.endswith(('.bdd', '.zdd')) else m_
+                        if named != x and m_ not in ok:
+                            out.append((cls, name, n.pos[1], src[n.pos[1] - 1].strip(), x))
+                s.visitchildren(n)
+        V().visit(node.body)
+    return out, seen[0]
+
+
+def container_reuse_in_loops(path):
+    """A container through which parked references are released inside a loop must be created
+    inside that loop as well: otherwise the next iteration finds entries whose references are
+    gone.  -> (offenders [(cls, function, line, container)], loops inspected)"""
+    tree, text = cy_parse(path)
+    out = []
+    seen = [0]
+    for cls, name, node in cy_functions(tree):
+        created = {}    # container name -> list of loop nodes enclosing its creation ([] = none)
+
+        class V(TreeVisitor):
+            def __init__(s):
+                super().__init__()
+                s.loops = []
+
+            def visit_Node(s, n):
+                s.visitchildren(n)
+
+            def _loop(s, n):
+                s.loops.append(n)
+                s.visitchildren(n)
+                s.loops.pop()
+            visit_WhileStatNode = _loop
+            visit_ForInStatNode = _loop
+            visit_ForFromStatNode = _loop
+
+            def visit_SingleAssignmentNode(s, n):
+                r = n.rhs
+                if isinstance(n.lhs, ExprNodes.NameNode) and (
+                        isinstance(r, (ExprNodes.DictNode, ExprNodes.ListNode)) or (
+                            isinstance(r, ExprNodes.SimpleCallNode) and
+                            _fname(r) in ('dict', 'list', 'set'))):
+                    created.setdefault(n.lhs.name, []).append(list(s.loops))
+                s.visitchildren(n)
+        V().visit(node.body)
+        if not created:
+            continue
+
+        class W(TreeVisitor):
+            def __init__(s):
+                super().__init__()
+                s.loops = []
+
+            def visit_Node(s, n):
+                s.visitchildren(n)
+
+            def _loop(s, n):
+                # a release loop:  for x in C.values(): DEREF(x)
+                it = getattr(getattr(n, 'iterator', None), 'sequence', None)
+                base = None
+                while isinstance(it, (ExprNodes.SimpleCallNode, ExprNodes.GeneralCallNode)):
+                    fn_ = it.function
+                    if isinstance(fn_, ExprNodes.AttributeNode):
+                        it = fn_.obj
+                    elif getattr(it, 'args', None):
+                        it = it.args[0]
+                    else:
+                        break
+                if isinstance(it, ExprNodes.NameNode):
+                    base = it.name
+                if base in created and any(_fname(c) in DEREF for c in _calls_in(n.body)):
+                    seen[0] += 1
+                    outer = list(s.loops)
+                    if outer:
+                        # the release runs inside `outer[-1]`: some creation of the container
+                        # must be inside that loop too
+                        if not any(outer[-1] in lp for lp in created[base]):
+                            out.append((cls, name, n.pos[1], base))
+                s.loops.append(n)
+                s.visitchildren(n)
+                s.loops.pop()
+            visit_WhileStatNode = _loop
+            visit_ForInStatNode = _loop
+            visit_ForFromStatNode = _loop
+        W().visit(node.body)
+    return out, seen[0]
